@@ -27,6 +27,11 @@ func c02Scenarios() []scOpt {
 	s.eds = append(s.eds, w.WithRolling("50%", "50%", 1, 0))
 	s.name = "S2-mu50%-slow50%-par1"
 	scs = append(scs, s)
+	// percentages whose rounding direction matters: 30% of 3 nodes (and of 2 after a node left) must round UP to 1
+	s30 := corpusS2(n3, "30%", b, &w.Alpha{DelNodes: true, Taints: []string{"NoSchedule"}, PodDev: []string{"unready"}})
+	s30.eds = append(s30.eds, w.WithRolling("30%", "30%", 0, 0))
+	s30.name = "S2-mu30%-slow30%"
+	scs = append(scs, s30)
 	scs = append(scs, corpusS3(n3, "1", "auto", b, canaryDev()))
 	scs = append(scs, corpusS3(n2, "1", "manual", b, canaryDev()))
 	// S5: migration from an apps/v1 DaemonSet
@@ -36,7 +41,7 @@ func c02Scenarios() []scOpt {
 		raw: true, alpha: &w.Alpha{PodDev: []string{"unready"}}, budget: 1})
 	if h.Thorough() {
 		scs[1] = corpusS2(n3, "1", 2, rolloutDev())
-		scs[3] = corpusS3(n3, "1", "auto", 2, canaryDev())
+		scs[4] = corpusS3(n3, "1", "auto", 2, canaryDev())
 		scs = append(scs, corpusS3([]string{"n1", "n2", "n3", "n4"}, "2", "auto", 1, canaryDev()))
 	}
 	return scs
